@@ -26,11 +26,11 @@ INFO = dict(
               'on_faulted signal fired; and whenever at the horizon the transport reports Open with nothing in flight, a fresh probe request '
               'actually reaches the peer.',
   bounds={'quick': 'serial: 1 request, 1 fault; mux: <= 2 requests in flight, 1 fault', 'thorough': 'mux: <= 3 requests in flight; two consecutive serial requests'},
-  outside=['more than one fault per connection', 'partial writes (send returns fewer bytes than asked)'],
+  outside=['more than one fault per connection', 'send() returning fewer bytes than asked (a write that delivers part of the frame and then blocks IS covered)'],
   stubs=['fake TCP layer + scripted peers (3.9, 3.10)', 'virtual loop, timer/EMA math stubs, random for the ping interval (symbolic)'],
   assumptions=['A1-A4'],
 )
-EXPECT_COVERS = ['mux:request-during-failing-open', 'mux:request-during-successful-open', 'serial:request-during-failing-open', 'serial:request-during-successful-open', 'serial:connect-refused', 'serial:io-error', 'serial:eof', 'serial:timeout-reconnect-ok', 'serial:timeout-reconnect-refused',
+EXPECT_COVERS = ['serial:timeout-during-partial-write', 'mux:request-during-failing-open', 'mux:request-during-successful-open', 'serial:request-during-failing-open', 'serial:request-during-successful-open', 'serial:connect-refused', 'serial:io-error', 'serial:eof', 'serial:timeout-reconnect-ok', 'serial:timeout-reconnect-refused',
                  'mux:connect-refused', 'mux:io-error', 'mux:eof', 'mux:ping-silence', 'serial:clean', 'mux:clean']
 
 
@@ -39,6 +39,7 @@ def jobs(tier):
         dict(name='serial-io-fault', kind='serial', sc='io', cost=100),
         dict(name='serial-eof', kind='serial', sc='eof', cost=100),
         dict(name='serial-silence', kind='serial', sc='silence', cost=100),
+        dict(name='serial-timeout-during-blocked-write', kind='serial', sc='blockedwrite', cost=100),
         dict(name='mux-connect', kind='mux', sc='connect', cost=10),
         dict(name='mux-io-fault', kind='mux', sc='io', n=2, cost=500),
         dict(name='mux-eof', kind='mux', sc='eof', n=2, cost=500, shards=4, shard_depth=2),
@@ -143,6 +144,28 @@ def make_body(job):
       if outcome != 0:
         check('duringopen.reports-closed', t.state == ChannelState.Closed)
       probe(kind, t, script, 'duringopen')
+      check('no-greenlet-error', not vtime.ERRORS)
+      t.Close()
+      return
+    if sc == 'blockedwrite':
+      # back-pressure: the write delivers the first part of the frame, then blocks; the deadline strikes meanwhile
+      T = fresh_real('T', 0, 4, lo_strict=True); W = fresh_real('write_blocks_for', 0, 6)
+      script = netm.Script(plan=lambda i, p: ('reply', 0))
+      e.net.endpoint('a', 1, peer=lambda s: Peer(s, script), connect_delay=0.1)
+      t, faults = new_transport(kind, e)
+      t.Open().wait()
+      conn = e.net.conns[0]
+      orig = conn.sendall
+      def stalling(data):
+        data = bytes(data); h = len(data) // 2
+        orig(data[:h]); gevent.sleep(W); orig(data[h:])
+      conn.sendall = stalling
+      term = send(kind, t, 'r0', deadline=vtime.now() + T)
+      gevent.sleep(12)
+      check('blockedwrite.exactly-one-outcome', len(term.got) == 1)
+      if bool(T < W): cover('serial:timeout-during-partial-write')
+      conn.sendall = orig          # the back-pressure is over
+      probe(kind, t, script, 'blockedwrite')
       check('no-greenlet-error', not vtime.ERRORS)
       t.Close()
       return
